@@ -10,11 +10,11 @@ CONSTANTS
   Deviations <- NoDev
   ConeIgnoresSwap = TRUE
 VIEW view
+INVARIANT RejectClean
 INVARIANT RegIsRun
 INVARIANT NormOne
 INVARIANT QueriesAgree
 INVARIANT NoStaleRead
-INVARIANT RejectClean
 INVARIANT RecordInStep
 INVARIANT StoreCurrent
 CHECK_DEADLOCK FALSE
